@@ -47,3 +47,41 @@ package ds
 //@   loop 1 invariant result != nil && fresh(result) && fresh(result.store) && (result.store.ref != s.store.ref || result.store.ref == 0) && len(result.store) == rangeindex + 1 && rangeindex + 1 <= len(s.store)
 //@   loop 1 invariant forall i :: { result.store[i] } 0 <= i && i <= rangeindex ==> result.store[i] == s.store[i]
 //@   loop 1 invariant s.store == old(s.store) && forall i :: { s.store[i] } 0 <= i && i < len(s.store) ==> s.store[i] == old(s.store[i])
+
+// ---- Queue[T]: s.store[0:len], front at index 0 ----
+
+//@ func NewQueue [C03 C04 C09]
+//@   ensures result != nil && fresh(result) && result.store.ref == 0 && len(result.store) == 0 && cap(result.store) == 0
+//@ func (*Queue).IsEmpty [C03 C04 C09]
+//@   requires s != nil
+//@   ensures result == (len(s.store) == 0)
+//@ func (*Queue).Size [C03 C04 C09]
+//@   requires s != nil
+//@   ensures result == len(s.store)
+//@ func (*Queue).Contents [C03 C04 C09]
+//@   requires s != nil
+//@   ensures result == s.store
+//@ func (*Queue).Push [C03 C04 C09]
+//@   requires s != nil
+//@   let n := len(s.store)
+//@   let old_store := s.store
+//@   modifies s.store, elems(s.store)
+//@   ensures len: len(s.store) == n + 1
+//@   ensures where: (s.store.ref == old_store.ref && s.store.lo == old_store.lo) || fresh(s.store)
+//@   ensures kept: forall i :: { s.store[i] } 0 <= i && i < n ==> s.store[i] == old(old_store[i])
+//@   ensures last: s.store[n] == value
+//@ func (*Queue).Pop [C03 C04 C09]
+//@   requires s != nil
+//@   let n := len(s.store)
+//@   let old_store := s.store
+//@   modifies s.store
+//@   ensures empty: n == 0 ==> result == nil && s.store == old_store
+//@   ensures some: n > 0 ==> result != nil && len(s.store) == n - 1 && s.store.ref == old_store.ref && s.store.lo == old_store.lo + 1
+//@ func (*Queue).Limit [C03 C04 C09]
+//@   requires s != nil && amount >= 0
+//@   let n := len(s.store)
+//@   let old_store := s.store
+//@   modifies s.store
+//@   ensures window: len(s.store) == min(n, amount) && s.store.ref == old_store.ref && s.store.lo == old_store.lo + (n - min(n, amount))
+//@   loop 1 invariant len(s.store) <= n && len(s.store) >= min(n, amount) && s.store.ref == old_store.ref && s.store.lo == old_store.lo + (n - len(s.store))
+//@   loop 1 decreases len(s.store)
